@@ -15,7 +15,7 @@ LEVEL_TEXT = ("Lean 4 theorems for every ragged shape with at least one non-empt
 LEVEL_NOTE = ("Trusted: Lean kernel (+ standard axioms); hand models (tied by correspondence); numpy bincount / np.add.at semantics; float "
               "column sums follow bincount's order of summation (row order), compared exactly against the same order.")
 TECHNIQUE = "Lean 4 proof of column aggregates = per-column list spec; numpy-evaluated correspondence"
-DESIGN_REF = "6.9"
+DESIGN_REF = "7"
 LEAN_MODULES = ["NpsVerif.Props.C09"]
 KERNELS = ()
 RULE = ("cases = ragged shape with >= 1 non-empty row (exhaustive <=4 rows x <=3 cells + random up to 14 rows x 9 cells) x function "
